@@ -28,9 +28,9 @@ import attrs
 
 from common import Verdict
 
-KINDS = ["attrs", "dataclass", "nt", "nt", "td"]
+KINDS = ["attrs", "dataclass", "nt", "nt", "td", "td"]
 WRAPS = ["opt", "list", "dict", "tup"]
-PLAIN = [("int",), ("str",), ("enum",), ("float",), ("list", ("int",)), ("opt", ("str",)), ("bool",), ("dict", ("enum",))]
+PLAIN = [("int",), ("str",), ("enum",), ("float",), ("list", ("int",)), ("opt", ("str",)), ("bool",), ("dict", ("enum",)), ("any",), ("any",)]
 _counter = itertools.count()
 
 
@@ -40,6 +40,8 @@ def ann(t):
     k = t[0]
     if k in ("int", "str", "float", "bool"):
         return k
+    if k == "any":
+        return "Any"
     if k == "enum":
         return "E"
     if k == "opt":
@@ -114,7 +116,7 @@ def gen_family(rng):
 
 def source(classes):
     out = ["import enum, dataclasses, attrs",
-           "from typing import Dict, List, NamedTuple, Optional, Tuple, TypedDict",
+           "from typing import Any, Dict, List, NamedTuple, Optional, Tuple, TypedDict",
            "class E(enum.Enum):\n    A = 'a'\n    B = 'b'",
            "def ident(v):\n    return v"]
     k = len(classes)
@@ -187,6 +189,8 @@ class Family:
             return {"int": int, "str": str, "float": float, "bool": bool}[k]
         if k == "enum":
             return self.E
+        if k == "any":
+            return typing.Any
         if k == "opt":
             return typing.Optional[self.py(t[1])]
         if k == "list":
@@ -210,6 +214,8 @@ class Family:
             return rng.random() < 0.5
         if k == "enum":
             return rng.choice(list(self.E))
+        if k == "any":
+            return rng.choice([1, "s", None, [1, 2], {"a": 1}, 2.5])      # primitives: encoded by runtime class = unchanged
         n = 0 if depth <= 0 and has_ref(t) else rng.randint(0 if depth < 3 else 1, 2)
         if k == "opt":
             return None if n == 0 else self.value(rng, t[1], depth)
@@ -233,7 +239,7 @@ class Family:
     # ---- the documented encoding (Converter, dict strategy / tuple strategy for attrs classes and dataclasses)
     def encode(self, t, x, strat="dict"):
         k = t[0]
-        if k in ("int", "str", "float", "bool"):
+        if k in ("int", "str", "float", "bool", "any"):
             return x
         if k == "enum":
             return x.value
@@ -254,6 +260,8 @@ class Family:
     # ---- is v a value of t, at every depth
     def conforms(self, t, v):
         k = t[0]
+        if k == "any":
+            return True
         if k in ("int", "str", "float", "bool"):
             return type(v) is {"int": int, "str": str, "float": float, "bool": bool}[k]
         if k == "enum":
@@ -353,6 +361,26 @@ def mutate(rng, o):
     return box[0]
 
 
+def key_deletions(o, limit=12):
+    """every payload obtained by deleting ONE key of ONE dict node (systematic: required-key checks at every class position)"""
+    out = []
+
+    def walk(x, rebuild):
+        if len(out) >= limit:
+            return
+        if type(x) is dict:
+            for k in x:
+                if len(out) < limit:
+                    out.append(rebuild({kk: vv for kk, vv in x.items() if kk != k}))
+            for k in x:
+                walk(x[k], (lambda v, x=x, k=k, rebuild=rebuild: rebuild({**x, k: v})))
+        elif type(x) in (list, tuple):
+            for j in range(len(x)):
+                walk(x[j], (lambda v, x=x, j=j, rebuild=rebuild: rebuild(type(x)(list(x[:j]) + [v] + list(x[j + 1:])))))
+    walk(o, lambda v: v)
+    return out
+
+
 def run(f, *a):
     try:
         return ("ok", f(*a))
@@ -433,7 +461,7 @@ def cycle_battery(v: Verdict, prop: str, n_families: int):
                             v.violation("Converter and BaseConverter unstructure the same value differently (mutually recursive classes)",
                                         dict(desc, **case, converter=repr(u), base_converter=repr(ub[1]), battery="CYCLE"))
                     # corrupted payloads
-                    payloads = [u] + [mutate(rng, u) for _ in range(3)]
+                    payloads = [u] + [mutate(rng, u) for _ in range(3)] + (key_deletions(u) if prop in ("C02", "C04", "C06") else [])
                     for o in payloads:
                         hist["structure_mutated"] += 1
                         r1 = run(c1.structure, copy.deepcopy(o), T)
@@ -508,7 +536,7 @@ def shaped(fam, t, o, strat):
     """class positions hold mappings (dict strategy) / sequences (tuple strategy): the inputs on which the two converter
     classes are documented to agree (the interpretive hooks index the payload, the generated ones use `in`)"""
     k = t[0]
-    if k in ("int", "str", "float", "bool", "enum"):
+    if k in ("int", "str", "float", "bool", "enum", "any"):
         return True
     if k == "opt":
         return o is None or shaped(fam, t[1], o, strat)
